@@ -1165,8 +1165,12 @@ impl<T: Config> P2PSession<T> {
             }
             // add the input and all associated information
             Event::Input { input, player } => {
-                // input only comes from remote players, not spectators
-                assert!(player < self.num_players as PlayerHandle);
+                // Input only comes from remote players, not spectators. A spectator endpoint can
+                // still decode input packets when its address is also the address of a remote
+                // player (the builder allows that); those are the player endpoint's business.
+                if player >= self.num_players as PlayerHandle {
+                    return;
+                }
                 if !self.local_connect_status[player].disconnected {
                     // check if the input comes in the correct sequence
                     let current_remote_frame = self.local_connect_status[player].last_frame;
